@@ -29,7 +29,7 @@ func isReadMethod(f *types.Func) bool {
 
 // ruleReadFull is shared by C08 and C07: partial Read results are never interpreted.
 func ruleReadFull(c *Ctx, p *core.Program, rule string) {
-	c.R.Rule(rule, "who-may-call: library code calls no method of *bufio.Reader that exposes partially arrived data (Peek, Buffered, Discard, ReadSlice, ...), and a Read([]byte)(int, error) method of any reader is called from library code only by a pure forwarder (a Read method that returns the callee's results unchanged); everything else obtains bytes through io.ReadFull / binary.ReadUvarint, so a short read is never interpreted as data. ReadByte is built on a full read of one byte")
+	c.R.Rule(rule, "who-may-call: library code calls no method of *bufio.Reader that exposes partially arrived data (Peek, Buffered, Discard, ReadSlice, ...), and a Read([]byte)(int, error) method of any reader is called from library code only by a pure forwarder (a Read method that returns the callee's results unchanged); everything else obtains bytes through io.ReadFull / binary.ReadUvarint, so a short read is never interpreted as data; no library function uses io.Copy / io.ReadAll / io.LimitReader / io.ReadAtLeast / bytes.Buffer.ReadFrom, for which end-of-input is a normal end. ReadByte is built on a full read of one byte")
 	cfg := p.Cfg.Name
 	n, fwd := 0, 0
 	for _, fn := range p.Funcs() {
@@ -59,6 +59,35 @@ func ruleReadFull(c *Ctx, p *core.Program, rule string) {
 			switch f.Name() {
 			case "Peek", "Buffered", "Discard", "ReadSlice", "ReadLine", "ReadBytes", "ReadString", "UnreadByte", "ReadRune", "UnreadRune", "ReadByte", "Read":
 				c.R.Bad(rule, core.CallKey(fn, call), cfg, p.Pos(call.Pos()), "library code calls (*bufio.Reader)."+f.Name()+": it sees only the bytes that have arrived so far, so the outcome depends on how the transport segments the stream (a value split across segments is mis-decoded or rejected)")
+			}
+		}
+	}
+	// standard-library helpers for which end-of-input is a normal end: a stream cut
+	// short is indistinguishable from a complete one
+	for _, fn := range p.Funcs() {
+		pk := pkgOf(fn)
+		if pk == nil || (pk.Path() != core.PkgProto && pk.Path() != core.PkgCompress && pk.Path() != core.PkgCh && pk.Path() != core.PkgPool) {
+			continue
+		}
+		for _, call := range core.Calls(fn) {
+			f := core.CalleeFunc(call)
+			if f == nil || f.Pkg() == nil {
+				continue
+			}
+			lossy := false
+			switch f.Pkg().Path() {
+			case "io":
+				switch f.Name() {
+				case "Copy", "CopyBuffer", "ReadAll", "LimitReader", "ReadAtLeast":
+					lossy = true
+				}
+			case "io/ioutil":
+				lossy = f.Name() == "ReadAll"
+			case "bytes":
+				lossy = core.IsMethod(f, "bytes", "Buffer", "ReadFrom")
+			}
+			if lossy {
+				c.R.Bad(rule, core.CallKey(fn, call), cfg, p.Pos(call.Pos()), "library code reads wire data through "+f.FullName()+", which treats end-of-input as a normal end: a value cut short is accepted as complete (use io.ReadFull / io.CopyN, which fail on a short read)")
 			}
 		}
 	}
@@ -188,6 +217,27 @@ func runC08(c *Ctx) {
 			c.R.Bad(rule, key, cfg, p.Pos(in.Pos()), "the retry does not depend on Timeout(): non-timeout network errors are retried forever")
 		default:
 			c.R.Ok(rule, key, cfg, p.Pos(in.Pos()), "retry <=> errors.As(err, *net.OpError) && Timeout()")
+		}
+		// once the error is recognised as a timeout, the only way out other than the next
+		// read is the loop's own test of the context
+		recognised := timeoutTrue
+		if len(isDeadline) > 0 {
+			recognised = append(append([]core.Edge{}, timeoutTrue...), isDeadline...)
+		}
+		for _, e := range recognised {
+			hits := core.ReachAvoiding(core.Point{B: e.B.Succs[e.Succ], I: -1}, func(x ssa.Instruction) bool {
+				ret, ok := x.(*ssa.Return)
+				if !ok || x.Block().Comment == "recover" {
+					return false
+				}
+				rv := core.ReturnErr(r.Receiver, ret)
+				return !(rv != nil && chainKeeps(rv, isCtxErr, 0))
+			}, func(x ssa.Instruction) bool { return x == in }, nil)
+			if len(hits) > 0 {
+				c.R.Bad(rule, key+"/timeout-exit", cfg, p.Pos(hits[0].At.Pos()), "after the read error has been recognised as a timeout the receive loop can still return something other than ctx.Err(): an idle gap between packets ends a live query although the context is not done")
+			} else {
+				c.R.Ok(rule, key+"/timeout-exit", cfg, p.Pos(in.Pos()), "from the timeout branch only the next read or `return ctx.Err()` is reachable")
+			}
 		}
 	}
 	rulePacketRead(c, p, rule)
